@@ -37,14 +37,20 @@ Section M.
 
   (* libwifi_get_rsn_info(info, tag_data = base, tag_end = end_) *)
   Definition get_rsn_info (base end_ : Z) : res (outcome rsn_info) :=
+    (* the version and the group cipher suite are read unconditionally: they must be there *)
+    if end_ - base <? 2 + suite_len then Done (Err (- EINVAL)) else
     let* ver := rd_le rd 2 base in
     let* grp := rd_suite (base + 2) in
     let p := base + 2 + suite_len in
+    (* every field after the group cipher suite is optional: the element may end here *)
+    if end_ =? p then Done (Ok {| r_version := ver; r_group := grp; r_pairwise := []; r_akms := []; r_caps := 0 |}) else
     if end_ <? p then Done (Err (- EINVAL)) else
     let* o1 := rd_suite_list p end_ in
     match o1 with
     | Err c => Done (Err c)
     | Ok (pw, p2) =>
+      (* ... or after the pairwise list *)
+      if end_ =? p2 then Done (Ok {| r_version := ver; r_group := grp; r_pairwise := pw; r_akms := []; r_caps := 0 |}) else
       let* o2 := rd_suite_list p2 end_ in
       match o2 with
       | Err c => Done (Err c)
@@ -56,14 +62,17 @@ Section M.
 
   (* libwifi_get_wpa_info(info, tag_data = base, tag_end = end_) *)
   Definition get_wpa_info (base end_ : Z) : res (outcome wpa_info) :=
+    if end_ - base <? 2 + suite_len then Done (Err (- EINVAL)) else
     let* ver := rd_le rd 2 base in
     let* mc := rd_suite (base + 2) in
     let p := base + 2 + suite_len in
+    if end_ =? p then Done (Ok {| wi_version := ver; wi_multicast := mc; wi_unicast := []; wi_akms := [] |}) else
     if end_ <? p then Done (Err (- EINVAL)) else
     let* o1 := rd_suite_list p end_ in
     match o1 with
     | Err c => Done (Err c)
     | Ok (uc, p2) =>
+      if end_ =? p2 then Done (Ok {| wi_version := ver; wi_multicast := mc; wi_unicast := uc; wi_akms := [] |}) else
       let* o2 := rd_suite_list p2 end_ in
       match o2 with
       | Err c => Done (Err c)
